@@ -112,15 +112,20 @@ check('C05',
       'JAX primitives are contract stubs; nn.jit trace-cache/fingerprint staleness '
       'and Module-level transform classes are NOT covered.', XHS, 'DESIGN.md §4 C05')
 check('C08',
-      'SLICE of the property: flax-side routing of nnx.vmap/scan/grad only -- '
-      'StateAxes.map_prefix resolves each Variable to the axis of the first '
-      'matching filter, a Variable reachable from two arguments under different '
-      'axis specifications is rejected (all pairs over {None,0,1,Carry}), nnx.grad '
-      'differentiates exactly the wrt / DiffState selection and applies forward '
-      'side effects once.',
-      'Equality with the per-index loop, the scan loop and jax.grad numerics is '
-      'implemented by JAX (vmap, lax.scan, AD) and is NOT claimed; jax.grad is a '
-      'structure-returning stub.', XHS, 'DESIGN.md §4 C08, §9.5')
+      'Bounded symbolic check of nnx.vmap / nnx.scan / nnx.grad: StateAxes.map_prefix '
+      'resolves each Variable to the axis of the first matching filter; a Variable '
+      'reachable from two arguments under different axis specifications is rejected '
+      '(all pairs over {None,0,1,Carry}); nnx.grad differentiates exactly the wrt / '
+      'DiffState selection and applies forward side effects once; and on SYMBOLIC int '
+      'values nnx.vmap == per-index calls on the slices (Param axis 0/1/None, '
+      'BatchStat axis 0/1, argument and out axes), nnx.scan == the Python loop '
+      '(Carry, carried or sliced BatchStat, reverse, order-sensitive body), nnx.grad '
+      '/ value_and_grad == the hand-derived gradient for 4 wrt selections, with the '
+      "caller's own objects carrying the stacked / final state.",
+      'jax.vmap, lax.scan, jnp.moveaxis and jax.grad are replaced by reference '
+      'implementations on an int-array stand-in (slice / call / stack, loop, tape AD); '
+      "JAX's own float numerics, split_rngs, transform_metadata and pmap are NOT "
+      'claimed; 3 indices / steps.', XHS, 'DESIGN.md §4 C08, §9.5')
 check('C09',
       'SMT (z3, sequences of bit-vector bytes): the byte string the real '
       '_fold_in_static hashes, recorded by running it on symbolic str/int stand-ins, '
